@@ -41,6 +41,8 @@ type Term struct {
 	Phi   []Lit
 	ElemS string
 	Table string
+	// Fields: for a struct literal value, the field names of Args (a value read back by selector)
+	Fields []string
 }
 
 func uniq(ss []string) []string {
